@@ -32,7 +32,8 @@ Lists == {"lin", "pws", "cvx", "ip", "other", "bounds"}
 \* item kinds and the list of the support model they are appended to (gcp.st -> socp.st -> lp.st)
 ListOf(i) == CASE i = "lin" -> "lin" [] i = "l1" -> "pws" [] i = "l2" -> "cvx"
                [] i = "p3" -> "ip" [] i = "ex" -> "other" [] i = "bd" -> "bounds"
-Items == {"lin", "l1", "l2", "p3", "ex", "bd"}
+               [] i = "xb" -> "other"      \* a box written with exponential-cone constraints ONLY (no other list is touched)
+Items == {"lin", "l1", "l2", "p3", "ex", "bd", "xb"}
 
 NoSet == {"noset"}        \* no set attached (a set, so that it is comparable with real sets)
 CIds == 1..K
